@@ -164,6 +164,85 @@ func runC16Extra(run *ev.Run) {
 		close(done)
 		_ = pc.Close()
 	}
+	// ---- (4) sockets opened while notices for ANOTHER socket are being fanned out on the same node (a noisy socket
+	// whose consumer is slow keeps the node's notice broker busy): the new socket sends to an unbound service at once
+	// and must get its own notice
+	{
+		noisy, err := a.ListenPacket("")
+		if err == nil {
+			ndone := make(chan struct{})
+			nch := noisy.SubscribeUnreachable(ndone)
+			go func() {
+				for range nch {
+					time.Sleep(time.Millisecond) // a slow consumer (capacity 1000 notices/s, five times the noise rate)
+				}
+			}()
+			stopNoise := make(chan struct{})
+			var nwg sync.WaitGroup
+			for w := 0; w < 2; w++ {
+				nwg.Add(1)
+				go func() {
+					defer nwg.Done()
+					for {
+						select {
+						case <-stopNoise:
+							return
+						default:
+						}
+						_, _ = noisy.WriteTo([]byte("noise"), a.NewAddr("bb", "noise"))
+						time.Sleep(10 * time.Millisecond)
+					}
+				}()
+			}
+			rounds := run.Pick(60, 400)
+			missing := 0
+			for i := 0; i < rounds && missing == 0; i++ {
+				pc, err := a.ListenPacket("")
+				if err != nil {
+					continue
+				}
+				done := make(chan struct{})
+				ch := pc.SubscribeUnreachable(done)
+				svc := fmt.Sprintf("nz%d", i)
+				var got atomic.Int64
+				go func() {
+					for n := range ch {
+						if n.Problem == "service unknown" && n.ToNode == "bb" && n.ToService == svc {
+							got.Add(1)
+						}
+					}
+				}()
+				_, werr := pc.WriteTo([]byte("fresh"), a.NewAddr("bb", svc))
+				ok := false
+				for w := 0; w < 400 && !ok; w++ {
+					time.Sleep(25 * time.Millisecond)
+					ok = got.Load() > 0
+				}
+				run.Eval(1)
+				run.Count("sockets_opened_during_notice_fan_out", 1)
+				if !ok && werr == nil {
+					ctx, cancel := context.WithTimeout(context.Background(), 10*time.Second)
+					_, _, perr := a.Ping(ctx, "bb", 30)
+					cancel()
+					if perr != nil {
+						run.Inconclusive(fmt.Sprintf("C16 extras: bb not reachable (%v)", perr))
+					} else {
+						missing++
+						run.Violation("notice:missing:socket-opened-during-fan-out", fmt.Sprintf("socket %d was opened while notices for another socket of the same node were being delivered; it subscribed, sent one datagram to the unbound service %q of a reachable node and got no 'service unknown' notice within 10 s (ping afterwards fine)", i, svc), nil)
+					}
+				}
+				close(done)
+				_ = pc.Close()
+			}
+			close(stopNoise)
+			nwg.Wait()
+			close(ndone)
+			_ = noisy.Close()
+			if missing == 0 {
+				run.Distinct("fresh-socket-during-fan-out")
+			}
+		}
+	}
 	// ---- (2) local dials
 	for i := 0; i < run.Pick(3, 12); i++ {
 		target := "ba"
